@@ -665,3 +665,317 @@ Proof.
   intro H. destruct (read_back_exact g H) as (t & E1 & E2). exists t. split; [exact E1|]. split; [|exact E2].
   rewrite bison_text_section, E1. reflexivity.
 Qed.
+
+(* ---------- the whole file ---------- *)
+Lemma starts_with_app p x : starts_with p (p ++ x) = true.
+Proof. induction p as [|a p IH]; [reflexivity|]. cbn [app starts_with]. now rewrite Z.eqb_refl, IH. Qed.
+
+Lemma unl_map {A} (f : A -> bytes) l : flat_map (fun x => nl ++ f x) l = unl (map f l).
+Proof. induction l as [|a l IH]; [reflexivity|]. cbn [flat_map map]. rewrite unl_cons, IH. now rewrite <- app_assoc. Qed.
+
+Lemma break_pp_app A B : Forall (fun l => bytes_eqb l s_pp = false) A -> break_pp (A ++ s_pp :: B) = (A, B).
+Proof.
+  induction 1 as [|a A Ha HA IH]; cbn [app break_pp].
+  - reflexivity.
+  - now rewrite Ha, IH.
+Qed.
+
+Lemma join_flat (f : Z -> bytes) ts : forall w, w ++ flat_map (fun t => [32] ++ f t) ts = join [32] (w :: map f ts).
+Proof.
+  induction ts as [|t ts IH]; intro w; [cbn; now rewrite app_nil_r|].
+  cbn [flat_map map]. rewrite join_cons2. rewrite <- IH. now rewrite <- !app_assoc.
+Qed.
+
+Lemma in_tl {A} (x : A) l : In x (tl l) -> In x l.
+Proof. destruct l; [auto | now right]. Qed.
+
+Ltac sp_lit := split; [discriminate | cbn; intuition discriminate].
+
+Section File.
+  Variable g : bgrammar.
+  Hypothesis Hwf : bison_wf g = true.
+  Hypothesis Hdw : decls_wf g = true.
+
+  Let n := Z.of_nat (length (bg_syms g)).
+  Let groups := rules_by_nonterm (map (fun r => (br_lhs r, r)) (bg_rules g)).
+  Let RL := flat_map (group_lines g) groups.
+  Let read_groups_result := map (fun grp => (b_name (sym_at g (fst grp)), map (body_of g (fst grp)) (snd grp))) groups.
+
+  Lemma section_is_lines : rule_section g = Some (unl RL).
+  Proof.
+    unfold rule_section. fold groups. rewrite <- (app_nil_l (unl _)). apply groups_fold.
+    eapply Forall_impl; [|exact (groups_ok g Hwf)]. intros grp [_ Hm]. eapply Forall_impl; [|exact Hm]. intros r (H & _). exact H.
+  Qed.
+
+  Lemma RL_no_nl : Forall (fun l => ~ In 10 l) RL.
+  Proof. apply (all_lines_no_nl g Hwf). exact (groups_ok g Hwf). Qed.
+
+  Lemma RL_read done : fold_left read_line RL (Some (done, None)) = Some (done ++ read_groups_result, None).
+  Proof.
+    apply read_groups. eapply Forall_impl; [|exact (groups_ok g Hwf)]. intros grp [Hk _]. now apply (key_name_ok g Hwf).
+  Qed.
+
+  Lemma RL_interp : all_some (map (interp_group g) read_groups_result) = Some (expected_groups g).
+  Proof.
+    unfold read_groups_result, expected_groups. fold groups. rewrite map_map.
+    rewrite (all_some_map _ (fun grp => (fst grp, map rule_spec (snd grp)))).
+    - f_equal. apply map_ext. intros [x rs]. reflexivity.
+    - eapply Forall_impl; [|exact (groups_ok g Hwf)]. intros grp [Hk Hm]. unfold interp_group. cbn [fst snd].
+      destruct Hk as [Hx _]. destruct (wf_parts g Hwf) as (Ht & _). rewrite <- (ref_text_nt g) by lia.
+      rewrite (sym_of_word_ref g Hwf) by lia. rewrite map_map.
+      rewrite (all_some_map _ rule_spec); [reflexivity|].
+      eapply Forall_impl; [|exact Hm]. intros r (_ & _ & H). exact H.
+  Qed.
+
+  Lemma RL_not_pp : Forall (fun l => bytes_eqb l s_pp = false) RL.
+  Proof.
+    unfold RL. apply Forall_forall. intros l Hl. apply in_flat_map in Hl as (grp & Hg & Hl).
+    pose proof (groups_ok g Hwf) as Hok. fold groups in Hok. rewrite Forall_forall in Hok. destruct (Hok grp Hg) as [Hk _].
+    unfold group_lines in Hl. apply in_app_or in Hl as [Hl|Hl]; [destruct Hl as [<-|[]]; reflexivity|].
+    apply in_app_or in Hl as [Hl|Hl].
+    { unfold la_lines in Hl. destruct (lookahead_of g (fst grp)); [|destruct Hl]. destruct Hl as [<-|[]]. reflexivity. }
+    apply in_app_or in Hl as [Hl|Hl].
+    { destruct Hl as [<-|[]]. destruct (name_ok_head _ (key_name_ok g Hwf _ Hk)) as (c & r & -> & Hc).
+      apply ok_char_facts in Hc. cbn [app bytes_eqb s_pp]. unfold s_pp. cbn [bytes_eqb].
+      destruct (Z.eqb_spec c 37); [lia | reflexivity]. }
+    apply in_app_or in Hl as [Hl|Hl]; [|destruct Hl as [<-|[]]; reflexivity].
+    generalize dependent 0%nat. induction (map (body_of g (fst grp)) (snd grp)) as [|b bs IH]; intros k Hl; [destruct Hl|].
+    cbn [body_lines] in Hl. destruct Hl as [<-|Hl]; [destruct (Nat.eqb k 0); reflexivity | eauto].
+  Qed.
+
+  (* the declaration lines *)
+  Definition start_line (p : Z * bool) : bytes :=
+    s_start ++ b_name (sym_at g (bg_tokens g + fst p)) ++ (if snd p then s_noeoi else []).
+  Definition prec_line (p : Z * list Z) : bytes :=
+    [37] ++ assoc_text (fst p) ++ flat_map (fun t => [32] ++ b_id (sym_at g t)) (snd p).
+  Definition token_line (t : Z) : bytes := s_token ++ b_id (sym_at g t).
+  Definition head_lines : list bytes :=
+    [[37;125]; []] ++ map start_line (bg_inputs g) ++ [[]] ++ map prec_line (bg_prec g) ++
+    map token_line (tl (tokens_without_prec g)) ++ [[]].
+
+  Lemma file_lines :
+    file_of_section g (unl RL) = [37;123] ++ unl (head_lines ++ [s_pp] ++ RL ++ [[]; s_pp; []; []]).
+  Proof.
+    unfold file_of_section. cbv zeta.
+    rewrite (flat_map_ext _ (fun p => nl ++ start_line p)) by (intros [nt e]; reflexivity).
+    rewrite (flat_map_ext _ (fun p => nl ++ prec_line p)) by (intros [a ts]; reflexivity).
+    change (flat_map (fun t => nl ++ s_token ++ b_id (sym_at g t))) with (flat_map (fun t => nl ++ token_line t)).
+    rewrite !unl_map. unfold head_lines. rewrite !unl_app, !unl_cons. unfold unl at 6 7 8. cbn [flat_map].
+    rewrite <- !app_assoc. reflexivity.
+  Qed.
+
+  Definition w_start : bytes := [37;115;116;97;114;116].   (* "%start" *)
+  Definition w_token : bytes := [37;116;111;107;101;110].   (* "%token" *)
+
+  Lemma dw_parts :
+    (forall p, In p (bg_inputs g) -> bg_tokens g <= bg_tokens g + fst p < n) /\
+    (forall p, In p (bg_prec g) -> 0 <= fst p < 3 /\ forall t, In t (snd p) -> 0 <= t < bg_tokens g).
+  Proof.
+    unfold decls_wf in Hdw. fold n in Hdw. apply andb_true_iff in Hdw as [H1 H2].
+    rewrite forallb_forall in H1, H2. split.
+    - intros p Hp. apply in_range_iff. auto.
+    - intros p Hp. specialize (H2 p Hp). apply andb_true_iff in H2 as [Ha Ht]. split; [now apply in_range_iff|].
+      rewrite forallb_forall in Ht. intros t Hin. apply in_range_iff. auto.
+  Qed.
+
+  Lemma tok_id_ok t : 0 <= t < bg_tokens g -> name_ok (b_id (sym_at g t)) = true.
+  Proof.
+    intro Ht. destruct (wf_parts g Hwf) as (Hn & Hnm & _). rewrite <- (ref_text_tok g) by lia. apply Hnm. fold n. lia.
+  Qed.
+
+  Lemma nt_name_ok x : bg_tokens g <= x < n -> name_ok (b_name (sym_at g x)) = true.
+  Proof.
+    intro Hx. destruct (wf_parts g Hwf) as (Hn & Hnm & _). rewrite <- (ref_text_nt g) by lia. apply Hnm. fold n. lia.
+  Qed.
+
+  Lemma read_start d p : In p (bg_inputs g) ->
+    read_decl d (start_line p) =
+    mkDecls (d_starts d ++ [(b_name (sym_at g (bg_tokens g + fst p)), snd p)]) (d_precs d) (d_tokens d).
+  Proof.
+    intro Hp. destruct dw_parts as [Hin _]. pose proof (name_ok_spaceless _ (nt_name_ok _ (Hin p Hp))) as Hsp.
+    unfold read_decl, start_line. rewrite starts_with_app.
+    set (nme := b_name (sym_at g (bg_tokens g + fst p))) in *.
+    assert (Hw : spaceless w_start) by sp_lit.
+    destruct (snd p).
+    - replace (s_start ++ nme ++ s_noeoi) with (join [32] [w_start; nme; [47;47]; w_noeoi]) by (cbn [join]; reflexivity).
+      rewrite words_join; [reflexivity|].
+      apply Forall_cons; [exact Hw | apply Forall_cons; [exact Hsp | apply Forall_cons; [sp_lit | apply Forall_cons; [sp_lit | apply Forall_nil]]]].
+    - replace (s_start ++ nme ++ []) with (join [32] [w_start; nme]) by (cbn [join]; rewrite app_nil_r; reflexivity).
+      rewrite words_join; [reflexivity|]. apply Forall_cons; [exact Hw | apply Forall_cons; [exact Hsp | apply Forall_nil]].
+  Qed.
+
+  Lemma read_token d t : 0 <= t < bg_tokens g ->
+    read_decl d (token_line t) = mkDecls (d_starts d) (d_precs d) (d_tokens d ++ [b_id (sym_at g t)]).
+  Proof.
+    intro Ht. pose proof (name_ok_spaceless _ (tok_id_ok t Ht)) as Hsp.
+    unfold read_decl, token_line. rewrite starts_with_app.
+    change (starts_with s_start (s_token ++ b_id (sym_at g t))) with false. cbv iota.
+    replace (s_token ++ b_id (sym_at g t)) with (join [32] [w_token; b_id (sym_at g t)]) by reflexivity.
+    rewrite words_join; [reflexivity|].
+    apply Forall_cons; [sp_lit | apply Forall_cons; [exact Hsp | apply Forall_nil]].
+  Qed.
+
+  Lemma read_prec d p : In p (bg_prec g) ->
+    read_decl d (prec_line p) =
+    mkDecls (d_starts d) (d_precs d ++ [(assoc_text (fst p), map (fun t => b_id (sym_at g t)) (snd p))]) (d_tokens d).
+  Proof.
+    intro Hp. destruct dw_parts as [_ Hpr]. destruct (Hpr p Hp) as [Ha Hts].
+    unfold read_decl, prec_line. rewrite app_assoc.
+    rewrite (join_flat (fun t => b_id (sym_at g t)) (snd p) ([37] ++ assoc_text (fst p))).
+    assert (Hsp : Forall spaceless (map (fun t => b_id (sym_at g t)) (snd p))).
+    { apply Forall_forall. intros w Hw. apply in_map_iff in Hw as (t & <- & Ht). apply name_ok_spaceless, tok_id_ok. auto. }
+    assert (Ea : fst p = 0 \/ fst p = 1 \/ fst p = 2) by lia.
+    destruct (map (fun t => b_id (sym_at g t)) (snd p)) as [|i ids] eqn:Eids.
+    - destruct Ea as [-> | [-> | ->]]; reflexivity.
+    - destruct Ea as [-> | [-> | ->]].
+      + change ([37] ++ assoc_text 0) with s_pct_left. rewrite join_cons2.
+        change (starts_with s_start (s_pct_left ++ [32] ++ join [32] (i :: ids))) with false.
+        change (starts_with s_token (s_pct_left ++ [32] ++ join [32] (i :: ids))) with false.
+        rewrite starts_with_app. cbv iota. cbn [orb]. rewrite <- join_cons2.
+        rewrite words_join; [reflexivity|]. constructor; [sp_lit | exact Hsp].
+      + change ([37] ++ assoc_text 1) with s_pct_right. rewrite join_cons2.
+        change (starts_with s_start (s_pct_right ++ [32] ++ join [32] (i :: ids))) with false.
+        change (starts_with s_token (s_pct_right ++ [32] ++ join [32] (i :: ids))) with false.
+        change (starts_with s_pct_left (s_pct_right ++ [32] ++ join [32] (i :: ids))) with false.
+        rewrite starts_with_app. cbv iota. cbn [orb]. rewrite <- join_cons2.
+        rewrite words_join; [reflexivity|]. constructor; [sp_lit | exact Hsp].
+      + change ([37] ++ assoc_text 2) with s_pct_nonassoc. rewrite join_cons2.
+        change (starts_with s_start (s_pct_nonassoc ++ [32] ++ join [32] (i :: ids))) with false.
+        change (starts_with s_token (s_pct_nonassoc ++ [32] ++ join [32] (i :: ids))) with false.
+        change (starts_with s_pct_left (s_pct_nonassoc ++ [32] ++ join [32] (i :: ids))) with false.
+        change (starts_with s_pct_right (s_pct_nonassoc ++ [32] ++ join [32] (i :: ids))) with false.
+        rewrite starts_with_app. cbv iota. cbn [orb]. rewrite <- join_cons2.
+        rewrite words_join; [reflexivity|]. constructor; [sp_lit | exact Hsp].
+  Qed.
+
+  Lemma decls_eta d : mkDecls (d_starts d) (d_precs d) (d_tokens d) = d.
+  Proof. destruct d; reflexivity. Qed.
+
+  Lemma fold_starts : forall ins d, (forall p, In p ins -> In p (bg_inputs g)) ->
+    fold_left read_decl (map start_line ins) d =
+    mkDecls (d_starts d ++ map (fun p => (b_name (sym_at g (bg_tokens g + fst p)), snd p)) ins) (d_precs d) (d_tokens d).
+  Proof.
+    induction ins as [|p ins IH]; intros d H; cbn [map fold_left]; [now rewrite app_nil_r, decls_eta|].
+    rewrite read_start by (apply H; now left). rewrite IH by (intros q Hq; apply H; now right).
+    cbn [d_starts d_precs d_tokens]. now rewrite <- app_assoc.
+  Qed.
+
+  Lemma fold_precs : forall ps d, (forall p, In p ps -> In p (bg_prec g)) ->
+    fold_left read_decl (map prec_line ps) d =
+    mkDecls (d_starts d) (d_precs d ++ map (fun p => (assoc_text (fst p), map (fun t => b_id (sym_at g t)) (snd p))) ps) (d_tokens d).
+  Proof.
+    induction ps as [|p ps IH]; intros d H; cbn [map fold_left]; [now rewrite app_nil_r, decls_eta|].
+    rewrite read_prec by (apply H; now left). rewrite IH by (intros q Hq; apply H; now right).
+    cbn [d_starts d_precs d_tokens]. now rewrite <- app_assoc.
+  Qed.
+
+  Lemma fold_tokens : forall ts d, (forall t, In t ts -> 0 <= t < bg_tokens g) ->
+    fold_left read_decl (map token_line ts) d =
+    mkDecls (d_starts d) (d_precs d) (d_tokens d ++ map (fun t => b_id (sym_at g t)) ts).
+  Proof.
+    induction ts as [|t ts IH]; intros d H; cbn [map fold_left]; [now rewrite app_nil_r, decls_eta|].
+    rewrite read_token by (apply H; now left). rewrite IH by (intros q Hq; apply H; now right).
+    cbn [d_starts d_precs d_tokens]. now rewrite <- app_assoc.
+  Qed.
+
+  Lemma twp_range t : In t (tl (tokens_without_prec g)) -> 0 <= t < bg_tokens g.
+  Proof.
+    intro H. apply in_tl in H. unfold tokens_without_prec in H. apply filter_In in H as [H _].
+    apply in_nat_range in H. destruct (wf_parts g Hwf) as (Ht & _). lia.
+  Qed.
+
+  Lemma read_head :
+    read_decls ([37;123] :: head_lines) =
+    mkDecls (map (fun p => (b_name (sym_at g (bg_tokens g + fst p)), snd p)) (bg_inputs g))
+            (map (fun p => (assoc_text (fst p), map (fun t => b_id (sym_at g t)) (snd p))) (bg_prec g))
+            (map (fun t => b_id (sym_at g t)) (tl (tokens_without_prec g))).
+  Proof.
+    unfold read_decls, head_lines. cbn [fold_left app].
+    change (read_decl (read_decl (read_decl (mkDecls [] [] []) [37;123]) [37;125]) []) with (mkDecls [] [] []).
+    rewrite fold_left_app, fold_starts by auto. cbn [fold_left app d_starts d_precs d_tokens].
+    match goal with |- context [read_decl ?d []] => change (read_decl d []) with d end.
+    rewrite fold_left_app, fold_precs by auto. cbn [app d_starts d_precs d_tokens].
+    rewrite fold_left_app, fold_tokens by exact twp_range. cbn [fold_left app d_starts d_precs d_tokens].
+    match goal with |- context [read_decl ?d []] => change (read_decl d []) with d end.
+    reflexivity.
+  Qed.
+
+  Lemma head_not_pp : Forall (fun l => bytes_eqb l s_pp = false) ([37;123] :: head_lines).
+  Proof.
+    constructor; [reflexivity|]. unfold head_lines.
+    apply Forall_app; split; [constructor; [reflexivity | constructor; [reflexivity | constructor]]|].
+    apply Forall_app; split; [apply Forall_forall; intros l Hl; apply in_map_iff in Hl as (p & <- & _); reflexivity|].
+    apply Forall_app; split; [constructor; [reflexivity | constructor]|].
+    apply Forall_app; split.
+    { apply Forall_forall. intros l Hl. apply in_map_iff in Hl as (p & <- & Hp).
+      destruct dw_parts as [_ Hpr]. destruct (Hpr p Hp) as [Ha _]. unfold prec_line.
+      assert (Ea : fst p = 0 \/ fst p = 1 \/ fst p = 2) by lia. destruct Ea as [-> | [-> | ->]]; reflexivity. }
+    apply Forall_app; split; [apply Forall_forall; intros l Hl; apply in_map_iff in Hl as (p & <- & _); reflexivity|].
+    constructor; [reflexivity | constructor].
+  Qed.
+
+  Lemma head_no_nl : Forall (fun l => ~ In 10 l) head_lines.
+  Proof.
+    destruct dw_parts as [Hin Hpr]. unfold head_lines.
+    apply Forall_app; split; [constructor; [cbn; intuition discriminate | constructor; [intros [] | constructor]]|].
+    apply Forall_app; split.
+    { apply Forall_forall. intros l Hl. apply in_map_iff in Hl as (p & <- & Hp). unfold start_line.
+      intro K. apply in_app_or in K as [K|K]; [cbn in K; intuition discriminate|].
+      apply in_app_or in K as [K|K].
+      - revert K. apply ok_chars_no_nl. apply (name_ok_inv _ (nt_name_ok _ (Hin p Hp))).
+      - destruct (snd p); cbn in K; intuition discriminate. }
+    apply Forall_app; split; [constructor; [intros [] | constructor]|].
+    apply Forall_app; split.
+    { apply Forall_forall. intros l Hl. apply in_map_iff in Hl as (p & <- & Hp). unfold prec_line.
+      destruct (Hpr p Hp) as [Ha Hts].
+      intro K. apply in_app_or in K as [K|K]; [cbn in K; intuition discriminate|].
+      apply in_app_or in K as [K|K].
+      - assert (Ea : fst p = 0 \/ fst p = 1 \/ fst p = 2) by lia.
+        destruct Ea as [E | [E | E]]; rewrite E in K; cbn in K; intuition discriminate.
+      - apply in_flat_map in K as (t & Ht & K). apply in_app_or in K as [K|K]; [cbn in K; intuition discriminate|].
+        revert K. apply ok_chars_no_nl. apply (name_ok_inv _ (tok_id_ok t (Hts t Ht))). }
+    apply Forall_app; split.
+    { apply Forall_forall. intros l Hl. apply in_map_iff in Hl as (t & <- & Ht). unfold token_line.
+      intro K. apply in_app_or in K as [K|K]; [cbn in K; intuition discriminate|].
+      revert K. apply ok_chars_no_nl. apply (name_ok_inv _ (tok_id_ok t (twp_range t Ht))). }
+    constructor; [intros [] | constructor].
+  Qed.
+
+  Theorem read_file_exact :
+    exists text, bison_text g = Some text /\ read_file g text = Some (expected_file g).
+  Proof.
+    exists (file_of_section g (unl RL)). split; [rewrite bison_text_section, section_is_lines; reflexivity|].
+    rewrite file_lines. unfold read_file.
+    rewrite split_on_unl; [| |cbn; intuition discriminate].
+    2:{ apply Forall_app; split; [exact head_no_nl|]. apply Forall_app; split; [constructor; [cbn; intuition discriminate | constructor]|].
+        apply Forall_app; split; [exact RL_no_nl|].
+        repeat (constructor; [cbn; intuition discriminate|]). constructor. }
+    change ([37;123] :: head_lines ++ [s_pp] ++ RL ++ [[]; s_pp; []; []])
+      with (([37;123] :: head_lines) ++ s_pp :: (RL ++ [[]; s_pp; []; []])).
+    rewrite break_pp_app by exact head_not_pp.
+    change (RL ++ [[]; s_pp; []; []]) with (RL ++ [[]] ++ s_pp :: [[]; []]). rewrite app_assoc.
+    rewrite break_pp_app by (apply Forall_app; split; [exact RL_not_pp | constructor; [reflexivity | constructor]]).
+    rewrite read_head. cbn [d_starts d_precs d_tokens].
+    destruct dw_parts as [Hin Hpr]. destruct (wf_parts g Hwf) as (Ht & _).
+    (* start symbols *)
+    rewrite map_map. rewrite (all_some_map _ (fun p => (bg_tokens g + fst p, snd p))).
+    2:{ apply Forall_forall. intros p Hp. rewrite <- (ref_text_nt g) by (apply Hin; exact Hp).
+        rewrite (sym_of_word_ref g Hwf) by (fold n; specialize (Hin p Hp); lia). reflexivity. }
+    (* precedence lines *)
+    rewrite map_map. rewrite (all_some_map _ (fun p => p)).
+    2:{ apply Forall_forall. intros p Hp. destruct (Hpr p Hp) as [Ha Hts].
+        assert (Ea : assoc_of_text (assoc_text (fst p)) = Some (fst p)).
+        { assert (E : fst p = 0 \/ fst p = 1 \/ fst p = 2) by lia. destruct E as [-> | [-> | ->]]; reflexivity. }
+        rewrite Ea. rewrite map_map. rewrite (all_some_map _ (fun t => t)).
+        - rewrite map_id. destruct p; reflexivity.
+        - apply Forall_forall. intros t Hin'. apply (tok_of_id_ref g Hwf). auto. }
+    (* %token lines *)
+    rewrite map_map. rewrite (all_some_map _ (fun t => t)).
+    2:{ apply Forall_forall. intros t Hin'. apply (tok_of_id_ref g Hwf). now apply twp_range. }
+    (* rules *)
+    unfold read_rule_lines. rewrite fold_left_app, RL_read. cbn [fold_left app].
+    change (read_line (Some (read_groups_result, None)) []) with (Some (read_groups_result, @None rgroup)).
+    cbv beta iota. rewrite RL_interp. unfold expected_file. rewrite !map_id. f_equal. f_equal.
+    apply map_ext. intros [nt e]. reflexivity.
+  Qed.
+End File.
